@@ -114,6 +114,23 @@ def cdup_special(tree):
     raise RuntimeError("change_directory: CDUP special case not found")
 
 
+def list_type_lookup_raises(tree):
+    """`Client.list` -> `AsyncLister.__anext__`: how the loop reads the entry's `type` fact.
+    True: a subscript `info["type"]` (KeyError when the fact is absent); False: only `.get("type")`-style reads"""
+    for node in ast.walk(tree):
+        if isinstance(node, ast.AsyncFunctionDef) and node.name == "__anext__":
+            subs = [n for n in ast.walk(node) if isinstance(n, ast.Subscript) and isinstance(n.slice, ast.Constant) and n.slice.value == "type"
+                    and isinstance(n.ctx, ast.Load)]
+            gets = [n for n in ast.walk(node) if isinstance(n, ast.Call) and isinstance(n.func, ast.Attribute) and n.func.attr == "get"
+                    and n.args and isinstance(n.args[0], ast.Constant) and n.args[0].value == "type"]
+            if subs:
+                return True
+            if gets:
+                return False
+            raise RuntimeError("Client.list.__anext__: no read of the `type` fact found")
+    raise RuntimeError("Client.list: __anext__ not found")
+
+
 NON_PATH_ARGS = ("offset",)
 
 
@@ -208,6 +225,9 @@ def gen_client():
         "",
         "/-- `Server.pwd` doubles the double quotes of the directory before quoting it (RFC 959) -/",
         "def pwdDoublesQuotes : Bool := %s" % ("true" if pwd_doubles_quotes() else "false"),
+        "",
+        "/-- `Client.list.__anext__` reads the entry's type with a subscript (`info[\"type\"]`: KeyError when absent) -/",
+        "def listTypeLookupRaises : Bool := %s" % ("true" if list_type_lookup_raises(tree) else "false"),
         "",
         "/-- `Client.upload`: the `relative = <expr>` assignments of the loop over a directory's children,",
         "    as (guarding test, expression) in source order; \"\" = unconditional -/",
